@@ -212,7 +212,7 @@ func (c *Ctx) finish(def *propDef, start time.Time, extra map[string]any) int {
 	sort.Strings(fns)
 	cov := map[string]any{
 		"explanation":        def.Explanation,
-		"rule":               def.Rule,
+		"rule":               fullRule(def),
 		"obligations":        len(c.Obl),
 		"discharged":         discharged,
 		"known_findings":     nKnown,
